@@ -61,6 +61,7 @@ class Obligation:
 
 class Ctx:
     FEAS_TIMEOUT_MS = 1500
+    INCR_TIMEOUT_MS = 250         # the incremental solver: its queries take milliseconds; a stalled one is re-asked afresh (see _check)
 
     def __init__(self, reg, func_name):
         self.reg = reg
@@ -80,7 +81,7 @@ class Ctx:
         self.spec_mode = 0
         self.guards = []
         self.solver = z3.Solver()
-        self.solver.set("timeout", self.FEAS_TIMEOUT_MS)
+        self.solver.set("timeout", self.INCR_TIMEOUT_MS)
         self.cur_tags = ()
         self.want_exc = 0
 
@@ -111,7 +112,19 @@ class Ctx:
         if not all(is_light(g) for g in extra):
             return z3.unknown
         lits = [g for g in self.guards if is_light(g)] + extra
-        return self.solver.check(*lits)
+        r = self.solver.check(*lits)
+        if r == z3.unknown:
+            # the long-lived incremental solver occasionally stalls on a trivial query (observed: 'canceled' after the full time-out on
+            # 15 quantifier-free assertions that a fresh solver decides in 4 ms - which process it hits depends on the order in which
+            # contract modules were loaded): ask a fresh solver before giving the answer 'unknown' to the path exploration
+            s2 = z3.Solver()
+            s2.set("timeout", self.FEAS_TIMEOUT_MS)
+            for a in self.solver.assertions():
+                s2.add(a)
+            r = s2.check(*lits)
+            s2.set("timeout", self.INCR_TIMEOUT_MS)
+            self.solver = s2          # ... and carry on with the fresh one
+        return r
 
     def entails(self, b):
         b = z3.simplify(b)
